@@ -8,7 +8,7 @@ R15a  Every fix built by the capitalisation rules (``rules/capitalisation`` and 
       Abstract domain on string expressions, evaluated through reaching
       definitions of locals: ``CASEMAP(b)`` ("some per-character case mapping of
       the external value ``b``").  Closed under
-        * ``.upper() .lower() .capitalize() .swapcase() .title() .casefold()``
+        * ``.upper() .lower() .capitalize() .swapcase() .title()`` (not ``.casefold()``: it re-spells letters)
         * choice (several reaching definitions / conditional expression), provided
           all alternatives have the same base
         * ``regex.sub(p, f, x)`` / ``re.sub`` with ``x`` in the domain, when ``f`` is
@@ -81,7 +81,9 @@ from ..report import construct_of
 
 PKG = "src/sqlfluff/rules/capitalisation/"
 CP01 = PKG + "CP01.py"
-CASE_METHODS = {"upper", "lower", "capitalize", "swapcase", "title", "casefold"}
+# str.casefold() is not a case map: it is the caseless-matching normalisation and re-spells letters
+# ("ß" -> "ss", final sigma -> sigma, ligatures expanded); it is fine in comparisons, not as the text written back
+CASE_METHODS = {"upper", "lower", "capitalize", "swapcase", "title"}
 BUILDER = "_get_fix"
 
 
@@ -931,6 +933,12 @@ _CP05_SKIP_AND_CALL = _CP05_SKIP + "                res = self._handle_segment(s
 _WORD_RX = "\"([^a-zA-Z0-9]+|^)([a-zA-Z0-9])([a-zA-Z0-9]*)\""
 
 VARIANTS = [
+    Variant(
+        "lower-policy-casefolds", "src/sqlfluff/rules/capitalisation/CP01.py",
+        "                fixed_raw = fixed_raw.lower()\n",
+        "                fixed_raw = fixed_raw.casefold()\n",
+        "R15a", None, "seeded C15-3: postgres `SELECT Straße` is rewritten to `strasse`",
+    ),
     # behaviour-preserving refactors: must stay quiet
     Variant(
         "quiet-cp05-skip-as-two-ifs", CP05,
